@@ -6,6 +6,8 @@ so a refactoring that renames internals changes hashes, not verdicts.
 import datetime as _dt
 import enum
 import hashlib
+import logging as _logging
+import uuid as _uuid
 
 try:
     from bitarray import bitarray
@@ -36,6 +38,11 @@ def canon(o, skip=SKIP_ATTRS, rename=None, _memo=None, _depth=0):
         return ("b", v.hex() if isinstance(v, bytes) else repr(v))
     if isinstance(o, enum.Enum):
         return ("E", type(o).__name__, o.name)
+    if isinstance(o, _logging.Logger):
+        return ("logger",)  # loggers hang on the global logging tree; never library state
+    if isinstance(o, _uuid.UUID):
+        v = o.int
+        return ("uuid", rename(v) if rename else v)
     if isinstance(o, (_dt.datetime, _dt.date, _dt.time)):
         # by value, not by (possibly seam-substituted) class name
         kind = "datetime" if isinstance(o, _dt.datetime) else ("date" if isinstance(o, _dt.date) else "time")
